@@ -36,7 +36,7 @@ goalign stats maxchar -i align.fasta
 		}
 
 		al := <-aligns.Achan
-		if aligns.Err != nil {
+		if al == nil {
 			err = aligns.Err
 			io.LogError(err)
 			return
